@@ -35,7 +35,7 @@ def gen_cases(ctx):
                         tail = rng.randrange(100)
                         nn = k
                     else:
-                        table[k] = [kind] if kind != 'e' else ['e', rng.randrange(100)]
+                        table[k] = [kind] if kind != 'e' else ['e', rng.choice([5, 11, 17, 95]) if rng.random() < 0.3 else rng.randrange(100)]   # id = 5 mod 6: StopIteration
                         nn = n
                     cfg = c01.rand_cfg(rng)
                     cfg['maxtasksperchild'] = None
@@ -50,7 +50,19 @@ def gen_cases(ctx):
                     sched = None if mode == 'free' else dict(priority=prio, quiet_ms=15)
                     base = dict(cfg=cfg, n=nn, tail=tail, table=table, fkind=rng.choice(['module', 'lambda', 'closure']),
                                 kwargs={}, schedule=sched, demand=['N*', 'A', 'A'], label='%s:%s' % (kind, mode), kind=kind, k=k)
+                    if kind == 'src' and rng.random() < 0.5:
+                        base['resume'] = rng.choice([1, 2, 4])      # a source that could go on after its exception (csv-reader like)
                     cases.append(base)
+                    if kind == 'e' and nn - k >= 2 and cfg['nworkers'] + cfg['extracache'] >= 2 and rng.random() < 0.6:
+                        # two faults in one window: the function fails for element k and the source, read ahead, raises before
+                        # that result is taken — the consumer must get the EARLIER failure (element k's), as in-process
+                        kk = rng.randint(k + 1, min(nn, k + cfg['nworkers'] + cfg['extracache']) - 0)
+                        kk = min(kk, nn)
+                        two = dict(base, n=kk, table=table[:kk], tail=rng.randrange(100), label='e+src:%s' % mode, kind='e+src')
+                        if two['schedule']:
+                            two['schedule'] = dict(two['schedule'], priority=[i for i in two['schedule']['priority'] if i < kk])
+                        cases.append(two)
+                        cases.append(dict(two, cfg=dict(cfg, nworkers=0), schedule=None, label='e+src:serial'))
                     if kind in ('e', 'src'):
                         cases.append(dict(base, cfg=dict(cfg, nworkers=0), schedule=None, label='%s:serial' % kind))
     # corpus: the defect input of the pinned tree (DESIGN §3, D1)
@@ -100,7 +112,7 @@ def check(ctx):
     # serial = parallel on raising functions and sources
     by_key = {}
     for c, r in zip(cases, results):
-        if c['kind'] in ('e', 'src'):
+        if c['kind'] in ('e', 'src', 'e+src'):
             key = (str(c['table']), c.get('tail'), c['cfg']['skipNone'])
             by_key.setdefault(key, {})['s' if c['cfg']['nworkers'] == 0 else 'p'] = (c, pipelib.observed_obs(r))
     for key, d in by_key.items():
@@ -116,6 +128,10 @@ def check(ctx):
 
 def replay(ctx, data):
     case = data['case']
+    if 'streams' in case:
+        from harness.props import multistream
+        multistream.replay(ctx, case)
+        return
     case.setdefault('kind', 'src' if case.get('tail') is not None else 'e')
     case.setdefault('k', 0)
     for c, r, m in c01.execute([case], workers=1):
